@@ -14,8 +14,9 @@ changed; what each one drops is stated):
         off `vec![vec![..; A]; B]` give the shape invariant of the loops that fill the table; for two nested `for p in 0..A`/`for n in
         0..B` loops the nonlinear fact `B*p + n < A*B` is stated as a hint (proved by Verus, `by (nonlinear_arith)`)
   R6  `debug!(..)` / `trace!(..)`       -> dropped (logging)
-The sample type `T` is an opaque struct with uninterpreted arithmetic. Assumed, and listed in the evidence: the first half of
-make_sincs returns npoints*factor values (make_sincs_head, external_body); products of sizes fit usize.
+The sample type `T` is an opaque struct with uninterpreted arithmetic. The first half of make_sincs (float code through iterator
+adapters) stays outside Verus: its length contract (make_sincs_head, external_body: npoints*factor values) is checked by the syntactic
+length-frame obligations of `length_stage` below (windows.rs generators, make_window, the push loop); products of sizes fit usize (assumed).
 A failure that is a Rust/Verus *compile* error (unknown name, unsupported construct) is UNDECIDED, never a violation; a failed
 verification condition is FAILED, and the bounded Kani contract of the same function (kani/verif_sinc_interpolator__scalar.rs) is what
 supplies a replayable input when there is one.
@@ -31,7 +32,10 @@ from .tierc import function_at, parse_verus, run_verus
 
 ASSUMPTIONS = [
     "scalar kernel (Verus): the first half of make_sincs (window, sinc evaluation, normalisation; float code through iterator adapters) is "
-    "assumed to return npoints*factor values (make_sincs_head, external_body); sinc_len*oversampling_factor fits usize",
+    "outside Verus: its contract 'returns npoints*factor values' (make_sincs_head, external_body) is not proved deductively but checked by the "
+    "syntactic length-frame obligations SINC.windows.*.returns_npoints_values and SINC.make_sincs.head_returns_npoints_times_factor_values "
+    "(vec![_; n] never resized; one unconditional push per element of window.iter().enumerate().take(n); closed deny list of length-changing "
+    "Vec methods); sinc_len*oversampling_factor fits usize",
     "scalar kernel (Verus): the sample type is an opaque struct with uninterpreted +, *, /, += (obligations concern indices, lengths and "
     "panics only); rewrites R1-R6 of vlib/tierc_kernel.py are the whole difference between the verified text and the source",
 ]
@@ -164,9 +168,10 @@ def rewrite(text):
 def add_loop_invariants(t, shape=None):
     """R5. `shape` = (var, rows, cols) of a table being filled, or None."""
     counters = {m.group(1) for m in re.finditer(r"\blet\s+mut\s+([A-Za-z_]\w*)\s*(?::\s*usize\s*)?=\s*0\s*;", t)}
+    t = _while_loops(t, counters, shape)
     headers = list(re.finditer(r"\bfor\s+([A-Za-z_]\w*)\s+in\s+([^\{]+?)\s*\{", t))
-    if not headers:
-        raise Undecided("no `for` loop found in the extracted body (loop shape outside rewrite R5)")
+    if not headers and "\n invariant " not in t:
+        raise Undecided("no `for` / `while` loop found in the extracted body (loop shape outside rewrite R5)")
     out, pos, nfresh = "", 0, 0
     nest = []  # (var, upper) of enclosing 0..N loops, by text position
     for m in headers:
@@ -193,6 +198,50 @@ def add_loop_invariants(t, shape=None):
         if mu:
             nest.append((var, mu.group(1), body_end))
         out += t[pos:m.start()] + "for %s in %s\n invariant %s,\n {%s" % (var, rng, ", ".join(invs) if invs else "true", hint)
+        pos = m.end()
+    return out + t[pos:]
+
+
+def _single_increments(body, counters):
+    """{counter: stride} for counters the body advances exactly once by a literal and does not otherwise assign"""
+    res = {}
+    for c in sorted(counters):
+        incs = re.findall(r"\b%s\s*\+=\s*(\d+)\s*;" % re.escape(c), body)
+        rest = re.sub(r"\b%s\s*\+=" % re.escape(c), "", body)
+        if len(incs) == 1 and not re.search(r"\b%s\s*(?:-=|\*=|=[^=])" % re.escape(c), rest):
+            res[c] = int(incs[0])
+    return res
+
+
+def _while_loops(t, counters, shape):
+    """R5 for `while A < B {`: derived invariants (stride facts of the counters the body advances once: `c % N == 0`, and
+    `c == N * d` for a companion counter d advanced by 1), `decreases B - A`."""
+    out, pos = "", 0
+    for m in re.finditer(r"\bwhile\s+([^\{]+?)\s*\{", t):
+        if m.start() < pos:
+            continue
+        cond = m.group(1).strip()
+        mc = re.match(r"([A-Za-z_]\w*)\s*<\s*(.+)$", cond)
+        if not mc:
+            raise Undecided("`while %s`: condition is not `counter < bound` (outside rewrite R5)" % cond)
+        body_end = _match(t, m.end() - 1, "{", "}")
+        body = t[m.end():body_end]
+        inc = _single_increments(body, counters)
+        if mc.group(1) not in inc:
+            raise Undecided("`while %s`: the counter is not advanced exactly once by a literal (outside rewrite R5)" % cond)
+        invs = []
+        for c, n in sorted(inc.items()):
+            if n > 1:
+                invs.append("%s %% %d == 0" % (c, n))
+        ones = [c for c, n in inc.items() if n == 1]
+        for c, n in sorted(inc.items()):
+            for d in ones:
+                if n > 1:
+                    invs.append("%s == %d * %s" % (c, n, d))
+        if shape is not None:
+            invs.append("table_shape(%s@, (%s) as int, (%s) as int)" % shape)
+        out += t[pos:m.start()] + "while %s\n invariant %s,\n decreases (%s) - %s,\n {" % (
+            cond, ", ".join(invs) if invs else "true", mc.group(2), mc.group(1))
         pos = m.end()
     return out + t[pos:]
 
@@ -288,4 +337,143 @@ def stage(scratch, tier, log):
             obs.append(Obligation(n, "verus/z3", DISCHARGED if nver > 0 else UNDECIDED, secs / len(decl), functions=[f], kind="complete",
                                   checks=max(1, nver // len(decl)),
                                   detail="all sizes; real body after rewrites R1-R6 (vlib/tierc_kernel.py); invariants derived from the text"))
+    return obs
+
+
+# ----------------------------------------------------------------------------------------------------------------------------------
+# Length-frame obligations for the part of the table construction that Verus cannot read (float code through iterator adapters):
+# they replace the bare assumption "make_sincs_head returns npoints*factor values" by checked syntactic frame conditions.
+
+LEN_CHANGING = (r"push|pop|truncate|resize|resize_with|clear|extend|extend_from_slice|insert|remove|swap_remove|drain|retain|retain_mut|"
+                r"append|split_off|dedup|dedup_by|dedup_by_key|set_len|splice")
+
+
+def _len_mutations(body, var, allow_push=0):
+    """-> list of length-changing uses of `var` in `body` (text), beyond `allow_push` pushes"""
+    found = []
+    for m in re.finditer(r"\b%s\s*\.\s*(%s)\s*\(" % (re.escape(var), LEN_CHANGING), body):
+        found.append(m.group(0))
+    pushes = [f for f in found if re.search(r"\.\s*push\s*\($", f)]
+    others = [f for f in found if f not in pushes]
+    if len(pushes) > allow_push:
+        others += pushes[allow_push:]
+    elif len(pushes) < allow_push:
+        others.append("expected %d push, found %d" % (allow_push, len(pushes)))
+    for m in re.finditer(r"(?<![\w\.])%s\s*=[^=]" % re.escape(var), body):
+        pre = body[max(0, m.start() - 12):m.start()]
+        if not re.search(r"let\s+(mut\s+)?$", pre):
+            found.append("reassignment")
+            others.append("reassignment of %s" % var)
+    if re.search(r"&\s*mut\s+%s\b" % re.escape(var), body):
+        others.append("&mut %s escapes" % var)
+    return others
+
+
+def _ret_expr(body):
+    t = body.rstrip()
+    if t.endswith("}"):
+        t = t[:-1].rstrip()
+    m = re.search(r"([A-Za-z_]\w*)\s*$", t)
+    return m.group(1) if m else None
+
+
+def length_stage(scratch, tier, log):
+    t0 = time.time()
+    obs = []
+
+    def ob(name, status, fn, detail):
+        obs.append(Obligation(name, "syntactic", status, time.time() - t0, "complete", [fn], detail=detail, checks=1))
+
+    try:
+        wsrc = scratch.read("windows.rs")
+        ssrc = scratch.read("sinc.rs")
+        # the three window generators: vec![_; npoints], never resized, returned
+        for fn in ("blackman_harris", "blackman", "hann"):
+            name = "SINC.windows.%s.returns_npoints_values" % fn
+            sig, _b, _l, body = rp.find_fn(wsrc, fn)
+            body = strip_comments(body)
+            pm = re.search(r"\(\s*([A-Za-z_]\w*)\s*:\s*usize\s*\)", sig)
+            m = re.search(r"\blet\s+mut\s+([A-Za-z_]\w*)\s*=\s*vec!\s*\[[^;\]]+;\s*([^\]]+?)\s*\]\s*;", body)
+            if not pm or not m:
+                ob(name, UNDECIDED, fn, "anchor lost: `fn %s(n: usize)` / `let mut w = vec![_; n];` not found" % fn)
+                continue
+            bad = _len_mutations(body, m.group(1))
+            if m.group(2) != pm.group(1):
+                ob(name, FAILED, fn, "the window is created with %s elements, not %s" % (m.group(2), pm.group(1)))
+            elif bad:
+                ob(name, FAILED, fn, "length of the window changes after creation: %s" % "; ".join(bad))
+            elif _ret_expr(body) != m.group(1):
+                ob(name, UNDECIDED, fn, "returned expression is not the created vector")
+            else:
+                ob(name, DISCHARGED, fn, "vec![_; %s], no length-changing call, returned" % pm.group(1))
+        # make_window: every arm calls a generator with its own npoints; only element-wise updates afterwards
+        name = "SINC.windows.make_window.returns_npoints_values"
+        sig, _b, _l, body = rp.find_fn(wsrc, "make_window")
+        body = strip_comments(body)
+        pm = re.search(r"\(\s*([A-Za-z_]\w*)\s*:\s*usize\s*,", sig)
+        m = re.search(r"\blet\s+(?:mut\s+)?([A-Za-z_]\w*)\s*=\s*match\b", body)
+        calls = re.findall(r"\b(blackman_harris|blackman|hann)\s*::\s*<\s*T\s*>\s*\(\s*([^\)]*?)\s*\)", body)
+        if not pm or not m or len(calls) < 3:
+            ob(name, UNDECIDED, "make_window", "anchor lost: `let mut window = match ..` with three generator calls not found")
+        else:
+            wrong = [c for c in calls if c[1] != pm.group(1)]
+            bad = _len_mutations(body, m.group(1))
+            end = _match(body, body.index("{", m.end()), "{", "}")
+            arms = body[m.end():end]
+            other_arms = re.findall(r"=>(?!\s*\{?\s*(?:blackman_harris|blackman|hann)\b)\s*([^,\n]+)", arms)
+            if wrong:
+                ob(name, FAILED, "make_window", "a window generator is called with %s instead of %s" % (wrong[0][1], pm.group(1)))
+            elif bad:
+                ob(name, FAILED, "make_window", "length of the window changes: %s" % "; ".join(bad))
+            elif other_arms or _ret_expr(body) != m.group(1):
+                ob(name, UNDECIDED, "make_window", "an arm that is not a generator call, or the vector is not what is returned")
+            else:
+                ob(name, DISCHARGED, "make_window", "every arm is generator(%s); only element-wise updates; returned" % pm.group(1))
+        # make_sincs, first half: y gets exactly one push per element of window.iter().enumerate().take(npoints*factor)
+        name = "SINC.make_sincs.head_returns_npoints_times_factor_values"
+        sig, _b, _l, body = rp.find_fn(ssrc, "make_sincs")
+        body = strip_comments(body)
+        cut = re.search(r"\blet\s+mut\s+[A-Za-z_]\w*\s*=\s*vec!\s*\[\s*vec!\s*\[", body)
+        head = body[:cut.start()] if cut else None
+        tail = body[cut.start():] if cut else ""
+        mt = re.search(r"\blet\s+([A-Za-z_]\w*)\s*=\s*npoints\s*\*\s*factor\s*;", head or "")
+        my = re.search(r"\blet\s+mut\s+([A-Za-z_]\w*)\s*=\s*Vec\s*::\s*(?:with_capacity\s*\([^\)]*\)|new\s*\(\s*\))\s*;", head or "")
+        mw = re.search(r"\blet\s+([A-Za-z_]\w*)\s*=\s*make_window\s*::\s*<\s*T\s*>\s*\(\s*([A-Za-z_]\w*)\s*,", head or "")
+        if not (cut and mt and my and mw):
+            ob(name, UNDECIDED, "make_sincs", "anchor lost: totpoints / y / window definitions not found in the first half of make_sincs")
+        else:
+            tot, y, w = mt.group(1), my.group(1), mw.group(1)
+            ml = re.search(r"\bfor\s+\([^\)]*\)\s+in\s+%s\s*\.\s*iter\s*\(\s*\)\s*\.\s*enumerate\s*\(\s*\)\s*\.\s*take\s*\(\s*%s\s*\)\s*\{" % (
+                re.escape(w), re.escape(tot)), head)
+            if mw.group(2) != tot:
+                ob(name, FAILED, "make_sincs", "the window is made with %s points, the table needs %s" % (mw.group(2), tot))
+            elif not ml:
+                ob(name, UNDECIDED, "make_sincs", "loop `for (x, w) in %s.iter().enumerate().take(%s)` not found" % (w, tot))
+            else:
+                le = _match(head, ml.end() - 1, "{", "}")
+                lbody = head[ml.end():le]
+                depth0 = ""
+                d = 0
+                for ch in lbody:
+                    if ch == "{":
+                        d += 1
+                    elif ch == "}":
+                        d -= 1
+                    elif d == 0:
+                        depth0 += ch
+                outside = head[:ml.start()] + head[le + 1:] + tail
+                bad_out = _len_mutations(outside, y)
+                bad_in = _len_mutations(lbody, y, allow_push=1)
+                if bad_out or bad_in:
+                    ob(name, FAILED, "make_sincs", "the number of values pushed to %s is not one per point: %s" % (y, "; ".join(bad_out + bad_in)))
+                elif not re.search(r"\b%s\s*\.\s*push\s*\(" % re.escape(y), depth0) or re.search(r"\b(continue|break|return)\b", lbody):
+                    ob(name, UNDECIDED, "make_sincs", "the push is conditional or the loop body leaves early")
+                elif y != "y":
+                    ob(name, UNDECIDED, "make_sincs", "the value vector is no longer called `y` (the Verus template binds that name)")
+                else:
+                    ob(name, DISCHARGED, "make_sincs",
+                       "%s = npoints*factor; window has %s values (make_window obligation); one unconditional push per element of "
+                       "window.iter().enumerate().take(%s); no other length-changing use of %s" % (tot, tot, tot, y))
+    except rp.ParseError as ex:
+        ob("SINC.make_sincs.head_length.extraction", UNDECIDED, "make_sincs", str(ex))
     return obs
